@@ -4,6 +4,7 @@
   refuses any other directive).  Trusted, with SigV4.Source.Rust and RustO.
 -/
 import SigV4.Model.Time
+import SigV4.Model.Keys
 
 namespace SigV4.Rust.Chrono
 
@@ -16,3 +17,29 @@ def formatDate : Bytes → Int × Int × Int → Bytes
   | [], _ => []
 
 end SigV4.Rust.Chrono
+
+/-! `usize` arithmetic, slices and the early-return shape of `KSecretKey::from_str`: every value is an `Option`
+(`none` = the Rust code panics: subtraction below zero, a slice range outside the array, `copy_from_slice` between
+different lengths).  `usize` overflow of `+` is not modelled (lengths of in-memory strings). -/
+namespace SigV4.Rust.Keys
+
+def add (a b : Option Nat) : Option Nat := do return (← a) + (← b)
+def sub (a b : Option Nat) : Option Nat := do
+  let x ← a; let y ← b
+  if y ≤ x then some (x - y) else none
+def lt (a b : Option Nat) : Option Bool := do return decide ((← a) < (← b))
+def le (a b : Option Nat) : Option Bool := do return decide ((← a) ≤ (← b))
+/-- `a || b`: `b` is evaluated only when `a` is false. -/
+def or (a : Option Bool) (b : Unit → Option Bool) : Option Bool := do
+  if (← a) then return true else b ()
+/-- `buf[lo..hi].copy_from_slice(src)`. -/
+def copyInto (buf : Bytes) (lo hi : Option Nat) (src : Bytes) : Option Bytes := do
+  let lo ← lo; let hi ← hi
+  if lo ≤ hi ∧ hi ≤ buf.length ∧ src.length = hi - lo then some (buf.take lo ++ src ++ buf.drop hi) else none
+/-- `Err(KeyTooLongError)` / `Ok(key)` / panic. -/
+def finish : Option (Except Unit SecretKey) → KeyOutcome
+  | none => .panic "from_str"
+  | some (.error _) => .tooLong
+  | some (.ok k) => .ok k
+
+end SigV4.Rust.Keys
